@@ -10,8 +10,10 @@ calling generator, coroutine awaiting ensureDeferred(coroutine), generator yield
 coroutine, coroutine awaiting an inlineCallbacks Deferred, coroutine awaiting a bare coroutine.
 
 The k awaited Deferreds ("slots") get a symbolic schedule: which fire before the function starts,
-which later and in which order, which never, success or failure each, and a symbolic point at which
-the returned Deferred is cancelled, with three canceller behaviours of the slots.  After every step
+which later and in which order, which never, success or failure each, and up to two symbolic points
+at which the returned Deferred is cancelled (the second one while the body, having observed the first
+cancelled Deferred's outcome, is suspended on a later await), with three canceller behaviours of the
+slots.  After every step
 the observation trace of the real run, the state of the returned Deferred and the cancel counters of
 all slots must be what the synchronous execution of the same template predicts.
 """
@@ -29,16 +31,20 @@ ENCODED = ["twisted.internet.defer:_inlineCallbacks", "twisted.internet.defer:_g
            "twisted.internet.defer:_addCancelCallbackToDeferred", "twisted.internet.defer:Deferred.__iter__",
            "twisted.internet.defer:ensureDeferred", "twisted.internet.defer:Deferred.fromCoroutine",
            "twisted.internet.defer:inlineCallbacks", "twisted.internet.defer:Deferred.cancel"]
-BOUNDS = {"quick": {"k": 3, "cm": 1}, "thorough": {"k": 5, "cm": 2}}
+BOUNDS = {"quick": {"k": 3, "cm": 1, "c2full": 0}, "thorough": {"k": 5, "cm": 2, "c2full": 3}}
 B = {}
 BOUNDS_TEXT = ("5 templates x generator/coroutine (nested template: 5 nesting flavours) = 13 programs; 1 <= k <= K "
                "awaited Deferreds; schedule = any sequence of distinct slots (others never fire), success or failure "
                "each, any prefix of it fired before the function starts; cancel() of the returned Deferred at any "
                "one point or never; slot cancellers: no-op / fire a value (quick) / fire a failure (thorough only). "
+               "A SECOND cancel() at any point c2 >= c (also immediately after the first) for the programs that go on "
+               "awaiting after a cancellation (try/except, try/finally, nested call: 9 programs), explored for "
+               "schedules that fire all k slots with none pre-fired, canceller no-op (try/except), value-firing "
+               "(nested call) or either (try/finally); thorough: additionally every schedule and canceller for k <= 3. "
                "quick: K = 3.  thorough: K = 4 with all schedules, plus k = 5 with the slots fired in index order "
                "(any number of them, any pre-fired prefix, any outcomes, any cancellation point)")
 OUTSIDE = ["randomly structured programs: the program shape is one of 13 fixed templates, only data, schedule and "
-           "cancellation point are symbolic", "more than K awaits; a second cancel()",
+           "cancellation point are symbolic", "more than K awaits; a third cancel(); a second cancel() in the straight-line and plain loop programs and for schedules with pre-fired or never-fired slots (thorough: only for k >= 4)",
            "slot values are the fixed integers 100+i (900+i / failures 50+i from cancellers), failures are _Err(i)",
            "returnValue(), generators yielding Deferreds that are themselves chained to other Deferreds"]
 ASSUMPTIONS = ["the expected trace is produced by the plain-function compilation of the same template text; the "
@@ -290,16 +296,31 @@ def _pick(x, hi):
     return hi
 
 
-def _run(tmpl, flav, k, L, os_, ss, p, c, cm):
+def _c2_ok(tmpl, k, L, p, c, c2, cm):
+    # where a second cancel() is explored (see BOUNDS_TEXT)
+    if c2 < 0:
+        return True
+    if c < 0 or c2 < c or c2 > L - p or tmpl < 2:
+        return False
+    if k <= B['c2full']:
+        return True
+    # canceller: try/except program no-op (it catches CancelledError and goes on), nested-call program
+    # value-firing (it goes on with the value), try/finally program both (CancelledError takes it into
+    # the await inside `finally`, a value lets it continue inside `try`)
+    return p == 0 and L == k and (cm == 0 if tmpl == 2 else (cm == 1 if tmpl == 4 else True))
+
+
+def _run(tmpl, flav, k, L, os_, ss, p, c, c2, cm):
     # ---- concretise every symbolic choice (one path per combination; the solver drives the split)
     tmpl = _pick(tmpl, 4)
     flav = _pick(flav, 4)
     k = _pick(k, B['k'])
     L = _pick(L, k)
-    order = [_pick(os_[j], k - 1) for j in range(L)]
+    order = [_pick(os_[j], k - 1) for j in range(L)]      # len(os_) >= k is guaranteed by the callers' pre
     oks = [True if ss[j] else False for j in range(L)]
     p = _pick(p, L)
     c = -1 if c < 0 else _pick(c, L - p)
+    c2 = -1 if c2 < 0 else _pick(c2, L - p)
     cm = _pick(cm, B['cm'])
 
     ctx = _RealCtx(k, cm)
@@ -336,17 +357,26 @@ def _run(tmpl, flav, k, L, os_, ss, p, c, cm):
 
     if not agree():
         return False
-    did_cancel = False
+    ncancelled = [0]
+
+    def cancel():
+        # cancel() of the returned Deferred: if the program is suspended, exactly the Deferred it is
+        # waiting for is cancelled and the body sees that Deferred's outcome; the returned Deferred
+        # fires only with the program's eventual outcome (agree() compares with the synchronous run)
+        _, efin, waiting = _expect(tmpl, k, outs)
+        res.cancel()
+        if efin is None:
+            ncancelled[0] += 1
+            exp_ncancel[waiting] += 1
+            outs[waiting] = [("cancelled",), ("ok", 900 + waiting), ("err", 50 + waiting)][cm]
+        return agree()
+
     for step in range(L - p + 1):
         if step == c:
-            _, efin, waiting = _expect(tmpl, k, outs)
-            res.cancel()
-            if efin is None:
-                # suspended on slot `waiting`: exactly that Deferred is cancelled, the body sees its outcome
-                did_cancel = True
-                exp_ncancel[waiting] += 1
-                outs[waiting] = [("cancelled",), ("ok", 900 + waiting), ("err", 50 + waiting)][cm]
-            if not agree():
+            if not cancel():
+                return False
+        if step == c2:
+            if not cancel():
                 return False
         if step < L - p:
             if outs[order[p + step]] is not None:
@@ -355,8 +385,10 @@ def _run(tmpl, flav, k, L, os_, ss, p, c, cm):
             if not agree():
                 return False
     cover()
-    if did_cancel:
+    if ncancelled[0] >= 1:
         cover("cancelled")
+    if ncancelled[0] >= 2:
+        cover("cancelled2")
     # (agree() held after the last step.)  Let a still suspended program run to its end: a suspended
     # generator with an await inside `finally` would complain at garbage collection; not part of the
     # checked behaviour
@@ -370,19 +402,40 @@ def _run(tmpl, flav, k, L, os_, ss, p, c, cm):
 # Schedule by scalars (symbolic lists are slow): L entries o0..o4 = distinct slot indices with outcome
 # s0..s4 (True = value); unused entries pinned to 0 / False; the first p are fired before the function
 # starts (in increasing index order); c = -1 never cancel, else cancel after c of the remaining L - p
-# firings; cm = canceller behaviour of the slots (only varied when there is a cancel).
+# firings; c2 = -1 or the point (>= c) of a second cancel(); cm = canceller behaviour of the slots (only
+# varied when there is a cancel).
 
-def program(tmpl: int, flav: int, k: int, L: int, o0: int, o1: int, o2: int, o3: int, o4: int,
-            s0: bool, s1: bool, s2: bool, s3: bool, s4: bool, p: int, c: int, cm: int) -> bool:
+def program(tmpl: int, flav: int, k: int, L: int, o0: int, o1: int, o2: int,
+            s0: bool, s1: bool, s2: bool, p: int, c: int, c2: int, cm: int) -> bool:
+    """
+    pre: 0 <= tmpl <= 4 and 0 <= flav <= (4 if tmpl == 4 else 1)
+    pre: 1 <= k <= 3 and k <= B['k'] and 0 <= L <= k and 0 <= p <= L and -1 <= c <= L - p
+    pre: 0 <= cm <= B['cm'] and (c >= 0 or cm == 0)
+    pre: -1 <= c2 <= L - p and _c2_ok(tmpl, k, L, p, c, c2, cm)
+    pre: (0 <= o0 < k) if L > 0 else (o0 == 0 and not s0)
+    pre: (0 <= o1 < k) if L > 1 else (o1 == 0 and not s1)
+    pre: (0 <= o2 < k) if L > 2 else (o2 == 0 and not s2)
+    pre: L < 2 or o1 != o0
+    pre: L < 3 or (o2 != o0 and o2 != o1)
+    pre: (p < 2 or o0 < o1) and (p < 3 or o1 < o2)
+    post: _
+    """
+    # quick tier: the same scenario function with at most 3 slots (fewer symbolic parameters)
+    return _run(tmpl, flav, k, L, (o0, o1, o2), (s0, s1, s2), p, c, c2, cm)
+
+
+def program5(tmpl: int, flav: int, k: int, L: int, o0: int, o1: int, o2: int, o3: int, o4: int,
+             s0: bool, s1: bool, s2: bool, s3: bool, s4: bool, p: int, c: int, c2: int, cm: int) -> bool:
     """
     pre: 0 <= tmpl <= 4 and 0 <= flav <= (4 if tmpl == 4 else 1)
     pre: 1 <= k <= B['k'] and 0 <= L <= k and 0 <= p <= L and -1 <= c <= L - p
     pre: 0 <= cm <= B['cm'] and (c >= 0 or cm == 0)
-    pre: (0 <= o0 < k and L > 0) or (o0 == 0 and not s0 and L <= 0)
-    pre: (0 <= o1 < k and L > 1) or (o1 == 0 and not s1 and L <= 1)
-    pre: (0 <= o2 < k and L > 2) or (o2 == 0 and not s2 and L <= 2)
-    pre: (0 <= o3 < k and L > 3) or (o3 == 0 and not s3 and L <= 3)
-    pre: (0 <= o4 < k and L > 4) or (o4 == 0 and not s4 and L <= 4)
+    pre: -1 <= c2 <= L - p and _c2_ok(tmpl, k, L, p, c, c2, cm)
+    pre: (0 <= o0 < k) if L > 0 else (o0 == 0 and not s0)
+    pre: (0 <= o1 < k) if L > 1 else (o1 == 0 and not s1)
+    pre: (0 <= o2 < k) if L > 2 else (o2 == 0 and not s2)
+    pre: (0 <= o3 < k) if L > 3 else (o3 == 0 and not s3)
+    pre: (0 <= o4 < k) if L > 4 else (o4 == 0 and not s4)
     pre: L < 2 or o1 != o0
     pre: L < 3 or (o2 != o0 and o2 != o1)
     pre: L < 4 or (o3 != o0 and o3 != o1 and o3 != o2)
@@ -390,7 +443,7 @@ def program(tmpl: int, flav: int, k: int, L: int, o0: int, o1: int, o2: int, o3:
     pre: (p < 2 or o0 < o1) and (p < 3 or o1 < o2) and (p < 4 or o2 < o3) and (p < 5 or o3 < o4)
     post: _
     """
-    return _run(tmpl, flav, k, L, (o0, o1, o2, o3, o4), (s0, s1, s2, s3, s4), p, c, cm)
+    return _run(tmpl, flav, k, L, (o0, o1, o2, o3, o4), (s0, s1, s2, s3, s4), p, c, c2, cm)
 
 
 _SEQ5 = ("k == 5 and o0 == 0 and (L < 2 or o1 == 1) and (L < 3 or o2 == 2) and (L < 4 or o3 == 3) "
@@ -401,32 +454,53 @@ def _shards(tier):
     out = []
     for (t, f) in PROGRAMS:
         prog = ("tmpl == %d" % t, "flav == %d" % f)
+        two = t >= 2          # programs with a second cancel()
         if tier == "quick":
-            out.append(prog + ("p == 0",))
+            if two:
+                out.append(prog + ("p == 0", "c2 < 0"))
+                if t == 3:
+                    out.append(prog + ("p == 0", "c2 >= 0", "cm == 0"))
+                    out.append(prog + ("p == 0", "c2 >= 0", "cm >= 1"))
+                else:
+                    out.append(prog + ("p == 0", "c2 >= 0"))
+            else:
+                out.append(prog + ("p == 0",))
             out.append(prog + ("p > 0",))
         else:
-            out.append(prog + ("k <= 3",))
+            if two:
+                out.append(prog + ("k <= 3", "c2 < 0"))
+                out.append(prog + ("k <= 3", "c2 >= 0", "c2 == c"))
+                out.append(prog + ("k <= 3", "c2 > c", "c >= 0"))
+            else:
+                out.append(prog + ("k <= 3",))
             for o in range(4):
                 out.append(prog + ("k == 4", "o0 == %d" % o))
             out.append(prog + (_SEQ5,))
     return out
 
 
-HARNESSES = [H(program, shards=_shards, timeout={"quick": 120, "thorough": 1500}, labels=("end", "cancelled"))]
+_LABELS = ("end", "cancelled", "cancelled2")
+HARNESSES = [H(program, shards=_shards, timeout={"quick": 120}, tiers=("quick",), labels=_LABELS),
+             H(program5, shards=_shards, timeout={"thorough": 1500}, tiers=("thorough",), labels=_LABELS)]
 
 
-def _v(tmpl, flav, k, order, oks, p, c, cm):
-    o = list(order) + [0] * (5 - len(order))
-    s = [bool(x) for x in oks] + [False] * (5 - len(oks))
-    return (tmpl, flav, k, len(order)) + tuple(o) + tuple(s) + (p, c, cm)
+def _v(tmpl, flav, k, order, oks, p, c, cm, c2=-1, slots=3):
+    o = list(order) + [0] * (slots - len(order))
+    s = [bool(x) for x in oks] + [False] * (slots - len(oks))
+    return (tmpl, flav, k, len(order)) + tuple(o) + tuple(s) + (p, c, c2, cm)
 
 
-VECTORS = {"program": [
-    _v(0, 0, 3, [0, 1, 2], [1, 1, 1], 3, -1, 0), _v(0, 1, 3, [2, 0, 1], [1, 1, 0], 1, -1, 0),
-    _v(1, 0, 3, [1, 0], [1, 1], 0, 1, 1), _v(1, 1, 3, [0, 2], [1, 1], 1, 0, 1),
-    _v(2, 0, 3, [0, 1, 2], [0, 1, 0], 0, 1, 0), _v(2, 1, 3, [2, 1], [0, 0], 2, 0, 1),
-    _v(3, 0, 3, [0], [0], 0, 1, 0), _v(3, 1, 3, [1, 0, 2], [1, 1, 1], 0, 0, 1),
-    _v(4, 0, 3, [0, 1, 2], [0, 1, 1], 1, 0, 0), _v(4, 1, 3, [1, 0, 2], [1, 0, 1], 0, 1, 1),
-    _v(4, 2, 3, [0, 1, 2], [1, 1, 1], 0, 0, 0), _v(4, 3, 3, [2, 1, 0], [1, 1, 1], 0, 2, 1),
-    _v(4, 4, 3, [0], [1], 0, 1, 0), _v(0, 0, 1, [], [], 0, 0, 1),
-]}
+_VEC = [
+    dict(a=(0, 0, 3, [0, 1, 2], [1, 1, 1], 3, -1, 0)), dict(a=(0, 1, 3, [2, 0, 1], [1, 1, 0], 1, -1, 0)),
+    dict(a=(1, 0, 3, [1, 0], [1, 1], 0, 1, 1)), dict(a=(1, 1, 3, [0, 2], [1, 1], 1, 0, 1)),
+    dict(a=(2, 0, 3, [0, 1, 2], [0, 1, 0], 0, 1, 0)), dict(a=(2, 1, 3, [2, 1], [0, 0], 2, 0, 1)),
+    dict(a=(3, 0, 3, [0], [0], 0, 1, 0)), dict(a=(3, 1, 3, [1, 0, 2], [1, 1, 1], 0, 0, 1)),
+    dict(a=(4, 0, 3, [0, 1, 2], [0, 1, 1], 1, 0, 0)), dict(a=(4, 1, 3, [1, 0, 2], [1, 0, 1], 0, 1, 1)),
+    dict(a=(4, 2, 3, [0, 1, 2], [1, 1, 1], 0, 0, 0)), dict(a=(4, 3, 3, [2, 1, 0], [1, 1, 1], 0, 2, 1)),
+    dict(a=(4, 4, 3, [0], [1], 0, 1, 0)), dict(a=(0, 0, 1, [], [], 0, 0, 1)),
+    dict(a=(2, 0, 3, [0, 1, 2], [1, 1, 1], 0, 0, 0), c2=0), dict(a=(2, 1, 3, [2, 1, 0], [1, 0, 1], 0, 1, 0), c2=2),
+    dict(a=(3, 0, 3, [1, 0, 2], [1, 1, 1], 0, 0, 0), c2=1), dict(a=(4, 0, 3, [0, 1, 2], [1, 1, 1], 0, 0, 1), c2=0),
+    dict(a=(4, 2, 3, [2, 0, 1], [0, 1, 1], 0, 1, 1), c2=1), dict(a=(4, 4, 3, [0, 1, 2], [1, 1, 0], 0, 0, 1), c2=3),
+]
+VECTORS = {"program": [_v(*d["a"], c2=d.get("c2", -1)) for d in _VEC],
+           "program5": [_v(*d["a"], c2=d.get("c2", -1), slots=5) for d in _VEC[::3]]}
